@@ -31,16 +31,20 @@ class DynamicOpticalSystem(object):
         while not end:
             if self.callbacks and self.callbacks[0][0] < t:
                 t_next, _, callback = heapq.heappop(self.callbacks)
-                integration_time = t_next - self.t
             else:
-                integration_time = t - self.t
+                t_next = t
                 end = True
+            integration_time = t_next - self.t
 
             # Avoid multiple expensive integrations if we have multiple callbacks
             # at the same time.
             if integration_time > 1e-6:
                 self.integrate(integration_time)
-                self.t += integration_time
+
+                # Land on the target itself (by value). Accumulating `self.t += integration_time`
+                # can round to a clock just above `t_next`; a callback then runs after its time
+                # and a repeated `evolve_until(t)` is refused as a backwards evolution.
+                self.t = copy.copy(t_next)
 
             if not end:
                 callback()
